@@ -624,3 +624,26 @@ Proof.
   apply scansE_app0; [apply scansE_if0; unitP P_m15_scans command Hp|].
   unitP P_m16_scans command Hp.
 Qed.
+
+(** ** a decidable form of the hypothesis on literal texts *)
+Definition lits_smart_freeb (lits : list (N * string * string)) : bool :=
+  forallb (fun l : N * string * string => smart_free (snd (fst l)) && smart_free (snd l)) lits.
+Definition alltables_smart_freeb (a : alltables) : bool :=
+  lits_smart_freeb (t_literals (a_main a))
+  && forallb (fun e => lits_smart_freeb (t_literals (snd e))) (a_subwords a).
+
+Lemma lits_smart_freeb_sound lits : lits_smart_freeb lits = true -> lits_smart_free lits.
+Proof.
+  unfold lits_smart_freeb, lits_smart_free. rewrite forallb_forall, Forall_forall. intros H l Hl.
+  apply andb_prop. apply H. exact Hl.
+Qed.
+
+Lemma alltables_smart_freeb_sound a : alltables_smart_freeb a = true -> alltables_smart_free a.
+Proof.
+  unfold alltables_smart_freeb. intros H. apply andb_prop in H. destruct H as [Hm Hs]. split.
+  - apply lits_smart_freeb_sound. exact Hm.
+  - intros id t Ht. unfold tables_of, tables_of_id in Ht.
+    destruct (find (fun e => N.eqb (snd (fst e)) id) (a_subwords a)) as [e|] eqn:E; [|discriminate].
+    assert (Et : snd e = t) by congruence. subst t. apply find_some in E. destruct E as [Hin _].
+    rewrite forallb_forall in Hs. apply lits_smart_freeb_sound. apply Hs. exact Hin.
+Qed.
